@@ -97,6 +97,58 @@ def real_worker(case):
         return {"build": {"err": ["worker:" + type(e).__name__, traceback.format_exc()[-600:]]}}
 
 
+def edit_mapper(mapper, setting, base, how):
+    """Bring an existing mapper to `setting` the way a user would: by editing its public
+    attributes (`label_variables`, `label_maps`, `model`), in place or by assignment."""
+    lv = lv_of(setting)
+    maps = {k: list(v) for k, v in setting["maps"]}
+    if how == "assign":
+        mapper.label_variables = lv
+        mapper.label_maps = maps
+    else:
+        for d, new in ((mapper.label_variables, lv), (mapper.label_maps, maps)):
+            if list(d) == list(new):
+                for k, v in new.items():  # item assignment on the caller-visible dict
+                    d[k] = v
+            else:  # keys added / removed / reordered: same dict object, new contents
+                d.clear()
+                d.update(new)
+    if base is not None:
+        mapper.model = base
+
+
+def mapper_session(cls, case, build):
+    """One mapper object that has already been used: it is constructed for the first entry of
+    case['history'] and `build(mapper, setting)` is called for every history entry (failures are
+    ignored, as a user correcting a bad map would), the mapper being edited in between; finally it
+    is edited to hold `case` itself.  Without history: a fresh mapper.  Returns (mapper, base)."""
+    hist = case.get("history") or []
+    seq = [*hist, case]
+    base = build_base(seq[0])
+    mapper = cls(base, label_variables=lv_of(seq[0]), label_maps={k: list(v) for k, v in seq[0]["maps"]})
+    for prev, cur in zip(seq, seq[1:]):
+        try:
+            build(mapper, prev)
+        except Exception:  # noqa: BLE001, S110
+            pass
+        nb = None
+        if canon_base(prev) != canon_base(cur):
+            base = nb = build_base(cur)
+        edit_mapper(mapper, cur, nb, cur.get("edit", "inplace"))
+    return mapper, base
+
+
+def canon_base(case):
+    import json
+
+    return json.dumps(case["base"], sort_keys=True)
+
+
+def attrs_of(mapper):
+    return {"lv": [[k, v] for k, v in mapper.label_variables.items()],
+            "maps": [[k, list(v)] for k, v in mapper.label_maps.items()]}
+
+
 def _real_worker(case):
     import warnings
 
@@ -105,15 +157,15 @@ def _real_worker(case):
 
     out = {}
     try:
-        base = build_base(case)
+        mapper, base = mapper_session(LabelMapper, case, lambda mp, c: mp.build_model(initial_labels=init_arg(c)))
     except Exception as e:  # noqa: BLE001
         return {"build": {"err": ["base:" + type(e).__name__]}}
     try:
-        mapper = LabelMapper(base, label_variables=lv_of(case), label_maps={k: list(v) for k, v in case["maps"]})
         lm = mapper.build_model(initial_labels=init_arg(case))
     except Exception as e:  # noqa: BLE001
-        return {"build": _exc(e)}
+        return {"build": _exc(e), "attrs": attrs_of(mapper)}
     out["build"] = {"ok": True}
+    out["attrs"] = attrs_of(mapper)
     out["rxns"] = canon_rxns([[k, r.args, list(r.stoichiometry.items())] for k, r in lm.get_raw_reactions().items()])
     try:
         out["vars"] = {"ok": sorted([k, num(v)] for k, v in lm.get_initial_conditions().items())}
@@ -363,7 +415,7 @@ def evaluate(cases, use_driver=True):
 
 def shape_of(case):
     lv = lv_of(case)
-    parts = []
+    parts = [f"reused{len(case['history'])}"] if case.get("history") else []
     for name, r in case["base"]["rxns"]:
         subs, prods = unpack(r["st"])
         tag = "m" if name in dict(case["maps"]) else "u"
@@ -376,6 +428,10 @@ def judge_case(ctx, case, R, M):
     sub = {k: v for k, v in case.items() if k != "states"}
     sb, srx = spec_structure(case)
     Mb = None if M is None else M["build"]
+    if "attrs" in R:
+        # building must not edit the mapper's (caller-visible) label counts and maps
+        ctx.judge(sub, R["attrs"], {"lv": case["lv"], "maps": case["maps"]}, None,
+                  what="mapper attributes after build_model")
     # 1. accepted / rejected with the right exception class
     if ctx.judge(sub, R["build"], sb, Mb, what="build outcome (short map -> ValueError)") != "ok":
         return
@@ -578,6 +634,126 @@ def random_case(rng):
     return case
 
 
+def perturbed(rng, case):
+    """an earlier setting of the same mapper: other maps / a map missing / other label counts /
+    other initial labels / another base model object"""
+    import copy
+
+    prev = copy.deepcopy({k: v for k, v in case.items() if k not in ("states", "evals", "history", "edit")})
+    changed = False
+    for km in prev["maps"]:
+        if rng.random() < 0.6 and len(km[1]) > 1:
+            old = list(km[1])
+            rng.shuffle(km[1])
+            if km[1] == old:
+                km[1].reverse()
+            changed = changed or km[1] != old
+    r = rng.random()
+    if r < 0.15 and prev["maps"]:
+        prev["maps"].pop(rng.randrange(len(prev["maps"])))
+        changed = True
+    elif r < 0.3 and prev["lv"]:
+        kn = rng.choice(prev["lv"])
+        kn[1] = max(0, kn[1] + rng.choice([-1, 1]))
+        changed = True
+    elif r < 0.4 and len(prev["lv"]) > 1:
+        rng.shuffle(prev["lv"])
+        rng.shuffle(prev["maps"])
+        changed = True
+    if rng.random() < 0.3:
+        prev["init"] = []
+        prev["init_as_int"] = []
+    if rng.random() < 0.2 and prev["base"]["pars"]:
+        prev["base"]["pars"][0][1] = str(Fraction(prev["base"]["pars"][0][1]) * 2)
+    if not changed and prev["maps"]:
+        prev["maps"][0][1] = list(reversed(prev["maps"][0][1])) + [0]
+    return prev
+
+
+def with_history(rng, case, depth=None):
+    """the same inputs reached on a mapper object that was built before with other settings"""
+    depth = depth or rng.choice([1, 1, 2])
+    hist, cur = [], case
+    for _ in range(depth):
+        cur = perturbed(rng, cur)
+        hist.insert(0, cur)
+    out = dict(case, history=hist, edit=rng.choice(["inplace", "inplace", "assign"]))
+    out.pop("states", None)
+    return out
+
+
+def reuse_cases(rng, tier):
+    """mapper reuse: deterministic part (single reaction, every permutation map of N<=3 positions
+    after a build with a different map, edited in place) + random part"""
+    out = []
+    for ss, ps in (([1], [1]), ([2], [2]), ([1, 1], [2]), ([2], [1, 1]), ([3], [3]), ([1], [2]), ([2, 1], [1, 2])):
+        N = max(sum(ss), sum(ps))
+        subs = [f"S{i}" for i in range(len(ss))]
+        prods = [f"P{i}" for i in range(len(ps))]
+        labels = {**dict(zip(subs, ss)), **dict(zip(prods, ps))}
+        perms = list(it.permutations(range(N)))
+        for m in perms:
+            other = perms[(perms.index(m) + 1) % len(perms)] if len(perms) > 1 else tuple(m) + (0,)
+            out.append(dict(single_rxn_case(subs, prods, labels, m),
+                            history=[single_rxn_case(subs, prods, labels, other)], edit="inplace"))
+    return out
+
+
+def shrink(ctx, judge, evaluate_fn, limit=40):
+    """Greedy reduction of the smallest failing inputs: drop history entries, reactions, maps, initial
+    labels, derived quantities, states; a candidate is kept when the real code still violates the
+    same check on it (R and S are recomputed)."""
+    from vlib.framework import Ctx, canon
+
+    def fails(cand, what):
+        try:
+            (R, M), = evaluate_fn([cand], ctx.driver_ok)
+        except Exception:  # noqa: BLE001
+            return None
+        probe = Ctx(ctx.prop, ctx.tier, ctx.seed)
+        judge(probe, cand, R, M)
+        hit = [v for v in probe.violations if v.get("what") == what]
+        return min(hit, key=lambda v: len(canon(v))) if hit else None
+
+    def candidates(c):
+        for i in range(len(c.get("history") or [])):
+            yield dict(c, history=c["history"][:i] + c["history"][i + 1:])
+        if c.get("history"):
+            yield {k: v for k, v in c.items() if k not in ("history", "edit")}
+        rx = c["base"]["rxns"]
+        for i in range(len(rx)):
+            if len(rx) > 1:
+                name = rx[i][0]
+                yield dict(c, base=dict(c["base"], rxns=rx[:i] + rx[i + 1:]),
+                           maps=[m for m in c["maps"] if m[0] != name], ma=[m for m in c.get("ma", []) if m != name])
+        if c.get("init"):
+            yield dict(c, init=[], init_as_int=[])
+        if c["base"].get("derived") and not any(d in r["args"] for d, _ in c["base"]["derived"] for _, r in rx):
+            yield dict(c, base=dict(c["base"], derived=[]))
+        for key in ("states", "evals"):
+            if len(c.get(key) or []) > 1:
+                for i in range(len(c[key])):
+                    yield dict(c, **{key: [c[key][i]]})
+
+    done = 0
+    for v in sorted((v for v in ctx.violations if "case" in v and "what" in v), key=lambda v: len(canon(v)))[:3]:
+        cur, best = v["case"], None
+        progress = True
+        while progress and done < limit:
+            progress = False
+            for cand in candidates(cur):
+                done += 1
+                hit = fails(cand, v["what"])
+                if hit is not None:
+                    cur, best, progress = hit["case"], hit, True
+                    break
+                if done >= limit:
+                    break
+        if best is not None:
+            best["shrunk_from"] = len(canon(v["case"]))
+            ctx.violations.append(best)
+
+
 # --------------------------------------------------------------------------- entry points
 
 
@@ -625,6 +801,12 @@ def run(ctx):
         n = max(n, 10000)
         ctx.notes.append("proof/correspondence broken: widened random search for a failing input")
     run_cases(ctx, [random_case(rng) for _ in range(n)], rng)
+    # the same inputs on a mapper object that has been built before with other settings
+    reuse = reuse_cases(rng, ctx.tier) + [with_history(rng, random_case(rng)) for _ in range(ctx.n(1200, 30000))]
+    ctx.extra_cov["mapper_reuse_stratum"] = len(reuse)
+    run_cases(ctx, reuse, rng)
+    if ctx.violations:
+        shrink(ctx, judge_case, evaluate)
 
 
 def replay(ctx, rp):
